@@ -75,6 +75,16 @@ def bounded(rep, tier):
     else:
         rep.add(Result("C19.identifiers-grid", BOUNDED_OK, klass="B", backend="symtable-oracle", function="mako.pyparser:FindIdentifiers", bound=b2, evaluations=len(G.STMTS),
                        time_s=time.time() - t1, detail="names demanded from the context = names symtable reports as read but not bound by the code"))
+    t15 = time.time()
+    ns = 40 if tier == "quick" else 400
+    outs = [x for o in pool_map(G.scope_random_case, list(range(ns))) for x in o]
+    b25 = "%d x 25 random nested-scope programs (defs, lambdas with every parameter kind and defaults, comprehensions) over a pool of four names, so that inner bindings collide with outer reads" % ns
+    if outs:
+        rep.add(Result("C19.scope-random-grid", VIOLATED, klass="B", backend="symtable-oracle", function="mako.pyparser:FindIdentifiers", bound=b25, evaluations=ns * 25,
+                       detail=str(outs[0])[:300], witness=outs[0], replayed=True, replay={"failures": outs[:3]}, time_s=time.time() - t15))
+    else:
+        rep.add(Result("C19.scope-random-grid", BOUNDED_OK, klass="B", backend="symtable-oracle", function="mako.pyparser:FindIdentifiers", bound=b25, evaluations=ns * 25,
+                       time_s=time.time() - t15, detail="names demanded from the context = symtable's read-but-unbound names"))
     t2 = time.time()
     margins = ["", " ", "  ", "    ", "\t", "            ", "\t\t", "      "]
     jobs = [(i, m) for i in range(len(G.BLOCKS)) for m in margins]
